@@ -70,8 +70,12 @@ def gen_case(rng):
         sigs.append((hashlib.sha256(b"\xc6\xb4\x13H" + pk).digest(), sk.sign(msg).signature))
     # perturbations
     p = rng.random()
-    if sigs and p < 0.15:
+    upper = set()
+    if sigs and p < 0.08:
         sigs.append(rng.choice(sigs))                                   # duplicated signer
+    elif sigs and p < 0.15:
+        sigs.append(rng.choice(sigs))                                   # duplicated signer, id spelled in upper-case hex
+        upper.add(len(sigs) - 1)
     elif sigs and p < 0.25:
         i = rng.randrange(len(sigs))
         bad = bytearray(sigs[i][1])
@@ -87,8 +91,9 @@ def gen_case(rng):
     elif sigs and p < 0.45:
         i = rng.randrange(len(sigs))
         sigs[i] = (sigs[i][0], keys(n)[0][0].sign(b"other message").signature if n else sigs[i][1])
+    sigs = [(a.hex().upper() if i in upper else a.hex(), b.hex()) for i, (a, b) in enumerate(sigs)]
     rng.shuffle(sigs)
-    return {"pks": [ks[i][1].hex() for i in range(n)], "ws": ws, "sigs": [(a.hex(), b.hex()) for a, b in sigs],
+    return {"pks": [ks[i][1].hex() for i in range(n)], "ws": ws, "sigs": sigs,
             "root": root.hex(), "file": file.hex(), "via_tlb": 0 < n <= 30 and rng.random() < 0.3}
 
 
@@ -134,7 +139,7 @@ def valid_pairs(c):
     out = []
     ids = {hashlib.sha256(b"\xc6\xb4\x13H" + bytes.fromhex(pk)).hexdigest(): pk for pk in c["pks"]}
     for a, b in c["sigs"]:
-        pk = ids.get(a)
+        pk = ids.get(a.lower())
         if pk is None:
             continue
         try:
@@ -148,7 +153,7 @@ def valid_pairs(c):
 def line(c):
     vp = valid_pairs(c)
     return (f"sigs {c['root']} {c['file']} {len(c['pks'])} " + " ".join(f"{pk}:{format(w, 'x')}" for pk, w in zip(c["pks"], c["ws"]))
-            + f" {len(c['sigs'])} " + " ".join(f"{a}:{b}" for a, b in c["sigs"])
+            + f" {len(c['sigs'])} " + " ".join(f"{a.lower()}:{b}" for a, b in c["sigs"])
             + f" {len(vp)} " + " ".join(f"{a}:{b}" for a, b in vp)).replace("  ", " ")
 
 
@@ -156,11 +161,12 @@ def spec_accept(c):
     """independent statement of the property"""
     vp = set(valid_pairs(c))
     ids = {hashlib.sha256(b"\xc6\xb4\x13H" + bytes.fromhex(pk)).hexdigest(): (pk, w) for pk, w in zip(c["pks"], c["ws"])}
-    signers = [a for a, _ in c["sigs"]]
+    signers = [a.lower() for a, _ in c["sigs"]]
     if len(set(signers)) != len(signers):
         return False
     signed = 0
     for a, b in c["sigs"]:
+        a = a.lower()
         if a not in ids or (ids[a][0], b) not in vp:
             return False
         signed += ids[a][1]
@@ -211,7 +217,7 @@ def replay_pair(c, other):
 
 
 def why(c):
-    signers = [a for a, _ in c["sigs"]]
+    signers = [a.lower() for a, _ in c["sigs"]]
     if len(set(signers)) != len(signers):
         return "a validator is counted more than once"
     if not c["pks"]:
